@@ -35,7 +35,7 @@ func init() {
 			"one process per shard, cases run sequentially: no concurrent modification of the destination while Helm runs (no TOCTOU exploration)",
 		},
 		RequiredFloors: []string{"load:accept", "load:reject-parent", "load:reject-abs", "expand:wrote-inside", "expand:reject", "extract:wrote-inside", "extract:reject",
-			"layout:symlink-scoped", "size:reject-file", "size:reject-total", "size:accept", "download:wrote", "pull:untarred", "mgr:lock-written", "mgr:symlink-planted"},
+			"layout:symlink-scoped", "size:reject-file", "size:reject-total", "size:accept", "download:wrote", "pull:untarred", "install:installed", "mgr:lock-written", "mgr:symlink-planted"},
 	})
 }
 
@@ -150,6 +150,10 @@ func (x *explorer) floors(cs Case, r result) {
 		if ok && r.WroteInside {
 			c.Floor("pull:untarred")
 		}
+	case "install":
+		if ok && r.WroteInside {
+			c.Floor("install:installed")
+		}
 	case "mgr":
 		if ok && r.WroteInside {
 			c.Floor("mgr:lock-written")
@@ -221,6 +225,28 @@ func with(base []Entry, front bool, es ...Entry) []Entry {
 	return out
 }
 
+// union concatenates name lists without duplicates, keeping the first occurrence.
+func union(lists ...[]string) []string {
+	seen := map[string]bool{}
+	var out []string
+	for _, l := range lists {
+		for _, n := range l {
+			if !seen[n] {
+				seen[n] = true
+				out = append(out, n)
+			}
+		}
+	}
+	return out
+}
+
+func maxSeg(c *core.Ctx) int {
+	if c.Thorough() {
+		return 4
+	}
+	return 3
+}
+
 func run(c *core.Ctx) {
 	t0 := time.Now()
 	box, err := newBox(fmt.Sprintf("w%d", c.Shard))
@@ -235,7 +261,7 @@ func run(c *core.Ctx) {
 		f    func(*explorer)
 	}{
 		{"mgr", phaseMgr}, {"download", phaseDownload}, {"sizes", phaseSizes}, {"load-names", phaseLoadNames},
-		{"layouts", phaseLayouts}, {"pairs", phasePairs}, {"pull", phasePull}, {"extract-names", phaseExtractNames}, {"expand-names", phaseExpandNames},
+		{"layouts", phaseLayouts}, {"pairs", phasePairs}, {"pull", phasePull}, {"install", phaseInstall}, {"extract-names", phaseExtractNames}, {"expand-names", phaseExpandNames},
 	}
 	for _, p := range phases {
 		if c.Only != "" && c.Only != p.name {
@@ -263,7 +289,9 @@ func phaseMgr(x *explorer) {
 					for _, op := range []string{"update", "build"} {
 						for _, skip := range []bool{true, false} {
 							for _, deps := range []string{"file", "none"} {
-								x.do(Case{EP: "mgr", Mgr: &MgrCase{API: api, LockName: ln, Plant: pl, Abs: abs, Op: op, Skip: skip, Deps: deps}})
+								for _, ign := range []bool{false, true} {
+									x.do(Case{EP: "mgr", Mgr: &MgrCase{API: api, LockName: ln, Plant: pl, Abs: abs, Op: op, Skip: skip, Deps: deps, Ignore: ign}})
+								}
 							}
 						}
 					}
@@ -271,7 +299,7 @@ func phaseMgr(x *explorer) {
 			}
 		}
 	}
-	x.c.Bound("manager_cases", "2 apiVersions x 2 lock names x 8 plantings (x2 link forms) x {Update,Build} x skipUpdate x {file:// dep, no deps}")
+	x.c.Bound("manager_cases", "2 apiVersions x 2 lock names x 8 plantings (x2 link forms) x {Update,Build} x skipUpdate x {file:// dep, no deps} x {no .helmignore, lock names ignored}")
 }
 
 var urlPaths = []string{"/x.tgz", "/..", "/.", "/a/..%2f..", "/", "/a/%2e%2e", "/x.tgz/..", "/x.tgz/.", "/%2e%2e%2fx.tgz", "/..%5cx.tgz", "/a/../../x.tgz", "/c:%5cx.tgz", "//x.tgz", "/a/%2e"}
@@ -323,9 +351,36 @@ func phasePull(x *explorer) {
 	x.c.Bound("pull_names", fmt.Sprint(len(names)))
 }
 
+func phaseInstall(x *explorer) {
+	names := union(genNames(1, true, segments), genNames(2, false, segments))
+	if x.c.Thorough() {
+		names = genNames(2, true, segments)
+	}
+	one := map[string]bool{}
+	for _, n := range genNames(1, true, segments) {
+		one[n] = true
+	}
+	for _, l := range installLayouts {
+		for _, abs := range []bool{false, true} {
+			if abs && l == "empty" || abs && l == "cache-sub-file" {
+				continue
+			}
+			for _, n := range names {
+				for _, v := range variants {
+					if !one[n] && v.Type != "reg" && v.Type != "dir" || !one[n] && v.Route != "" {
+						continue
+					}
+					x.do(Case{EP: "install", Entries: []Entry{reg("plugin.yaml", "name: p\n"), adv(n, v.Type, v.Route)}, Gz: "deflate", Layout: l, LinkAbs: abs})
+				}
+			}
+		}
+	}
+	x.c.Bound("install_names", fmt.Sprint(len(names)))
+}
+
 func phaseLoadNames(x *explorer) {
-	names := genNames(3, true, segments)
-	x.c.Bound("names_max_segments", "3")
+	names := genNames(maxSeg(x.c), true, segments)
+	x.c.Bound("names_max_segments", fmt.Sprint(maxSeg(x.c)))
 	x.c.Bound("names_total", fmt.Sprint(len(names)))
 	for _, n := range names {
 		for _, base := range []string{"", "x/"} {
@@ -344,26 +399,36 @@ func phaseLoadNames(x *explorer) {
 }
 
 func phaseExpandNames(x *explorer) {
-	names := genNames(3, true, segments)
-	small := map[string]bool{}
+	names := genNames(maxSeg(x.c), true, segments)
+	small, three := map[string]bool{}, map[string]bool{}
 	for _, n := range genNames(2, true, segments) {
 		small[n] = true
+	}
+	for _, n := range genNames(3, true, segments) {
+		three[n] = true
 	}
 	for _, n := range names {
 		for _, base := range []string{"x/", ""} {
 			for _, v := range variants {
+				if !three[n] && (v.Type != "reg" || v.Route != "") {
+					continue // 4-segment names (thorough): plain regular files only
+				}
 				if !x.c.Thorough() && !small[n] && (v.Type == "char" || v.Type == "fifo" || v.Type == "symdd" || v.Route == "gnu") {
 					// quick tier: 3-segment names skip the variants Helm treats exactly like a sibling variant (link/device types are all "not a directory")
 					continue
 				}
 				x.do(Case{EP: "expand", Entries: with(baseline("x"), false, adv(base+n, v.Type, v.Route)), Layout: "empty"})
-				if small[n] {
+				if small[n] || x.c.Thorough() && three[n] {
 					x.do(Case{EP: "expand", Entries: with(baseline("x"), true, adv(base+n, v.Type, v.Route)), Layout: "empty"})
 				}
 			}
 		}
 	}
-	for _, n := range genNames(1, true, segments) {
+	efNames := genNames(1, true, segments)
+	if x.c.Thorough() {
+		efNames = genNames(2, true, segments)
+	}
+	for _, n := range efNames {
 		for _, v := range variants {
 			x.do(Case{EP: "expandfile", Entries: with(baseline("x"), false, adv("x/"+n, v.Type, v.Route)), Gz: "deflate", Layout: "empty"})
 		}
@@ -371,15 +436,21 @@ func phaseExpandNames(x *explorer) {
 }
 
 func phaseExtractNames(x *explorer) {
-	names := genNames(3, true, segments)
-	small := map[string]bool{}
+	names := genNames(maxSeg(x.c), true, segments)
+	small, three := map[string]bool{}, map[string]bool{}
 	for _, n := range genNames(2, true, segments) {
 		small[n] = true
 	}
+	for _, n := range genNames(3, true, segments) {
+		three[n] = true
+	}
 	for _, n := range names {
 		for _, v := range variants {
+			if !three[n] && (v.Type != "reg" || v.Route != "") {
+				continue // 4-segment names (thorough): plain regular files only
+			}
 			x.do(Case{EP: "extract", Entries: []Entry{adv(n, v.Type, v.Route)}, Layout: "absent"})
-			if small[n] {
+			if small[n] || x.c.Thorough() && three[n] {
 				x.do(Case{EP: "extract", Entries: []Entry{reg("plugin.yaml", "name: p\n"), adv(n, v.Type, v.Route)}, Layout: "empty"})
 			}
 		}
@@ -388,6 +459,13 @@ func phaseExtractNames(x *explorer) {
 
 func phaseLayouts(x *explorer) {
 	names := genNames(2, true, segments)
+	if x.c.Thorough() {
+		names = union(names, genNames(3, false, segments))
+	}
+	reduced := map[string]bool{}
+	for _, n := range union(genNames(1, true, segments), genNames(2, false, segments)) {
+		reduced[n] = true
+	}
 	for _, l := range expandLayouts {
 		for _, abs := range []bool{false, true} {
 			if abs && l == "empty" || abs && strings.HasSuffix(l, "-file") {
@@ -395,6 +473,9 @@ func phaseLayouts(x *explorer) {
 			}
 			for _, cn := range chartNames {
 				for _, n := range names {
+					if !x.c.Thorough() && cn != "x" && !reduced[n] {
+						continue // quick tier: the full name list only with the plain chart name
+					}
 					for _, t := range []string{"reg", "dir"} {
 						x.do(Case{EP: "expand", Entries: with(baseline(cn), false, adv("x/"+n, t, "")), Layout: l, LinkAbs: abs})
 					}
@@ -414,7 +495,7 @@ func phaseLayouts(x *explorer) {
 			}
 		}
 	}
-	x.c.Bound("layout_names_max_segments", "2")
+	x.c.Bound("layout_names", fmt.Sprint(len(names)))
 }
 
 var pairSegs = []string{"a", "..", ".", "c:", `a\b`}
@@ -497,6 +578,10 @@ func phaseSizes(x *explorer) {
 					es[i] = mk(i, opts[j])
 				}
 				x.do(Case{EP: "loadfiles", Entries: es, FileLimit: F, TotalLimit: T})
+				if l == 1 {
+					x.do(Case{EP: "loadfiles", Entries: es, FileLimit: F, TotalLimit: T, NoEnd: true})
+					x.do(Case{EP: "loadfiles", Entries: es, FileLimit: F, TotalLimit: T, Gz: "deflate"})
+				}
 				i := l - 1
 				for i >= 0 {
 					idx[i]++
@@ -511,9 +596,35 @@ func phaseSizes(x *explorer) {
 				}
 			}
 		}
+		if x.c.Thorough() {
+			red := []sizeOpt{{"reg", 0, -1, ""}, {"reg", 1, -1, ""}, {"reg", F, -1, ""}, {"reg", F + 1, -1, ""}, {"reg", max64(T-2*F, 0), -1, ""}, {"reg", F, -1, "pax"}, {"dir", F + 1, -1, ""}, {"reg", F / 2, F / 4, ""}}
+			idx = make([]int, 4)
+			for {
+				es := make([]Entry, 4)
+				for i, j := range idx {
+					es[i] = mk(i, red[j])
+				}
+				x.do(Case{EP: "loadfiles", Entries: es, FileLimit: F, TotalLimit: T})
+				i := 3
+				for i >= 0 {
+					idx[i]++
+					if idx[i] < len(red) {
+						break
+					}
+					idx[i] = 0
+					i--
+				}
+				if i < 0 {
+					break
+				}
+			}
+		}
 		// many small files around the total limit
 		for _, s := range []int64{1, 7, 61, F / 2, F} {
 			for _, tot := range []int64{T - 1, T, T + 1, T + s} {
+				if s < 1 {
+					continue
+				}
 				n := tot / s
 				if n < 1 {
 					continue
